@@ -18,6 +18,8 @@ class VirtualClock:
         self.expire = plan.get("expire_at_read")
         self.n = 0
         self.reads = []  # (reader, value)
+        self.probe = None  # optional callable sampled at every read (progress of the run at that moment)
+        self.probed = []
         self.log = log
 
     def _reader(self):
@@ -42,6 +44,11 @@ class VirtualClock:
         self.n += 1
         reader = self._reader()
         self.reads.append((reader, self.t))
+        if self.probe is not None:
+            try:
+                self.probed.append(self.probe())
+            except Exception:  # noqa
+                self.probed.append(None)
         if self.log is not None:
             self.log(("clk", i, reader, float(self.t)))
         return self.t
